@@ -9,6 +9,14 @@ mkdir -p "$H/target"
 exec 9>"$H/target/.build.lock"
 flock 9
 cd "$H/harness"
-cargo build --release --offline --target-dir "$H/target/harness" 2>&1
+cargo build --release --offline --bin verif --target-dir "$H/target/harness" 2>&1
+# the direct-call sweeps are the only code that depends on the signatures of instructions::*; if a change to the
+# repository breaks that build, the pipeline-level checks still run and the evidence says "direct sweep unavailable"
+if cargo build --release --offline --bin vdirect --target-dir "$H/target/harness" 2>&1; then
+  echo "ok" > "$H/target/vdirect.status"
+else
+  rm -f "$H/target/harness/release/vdirect"
+  echo "failed: vdirect does not build against this tree (signature of an instruction function changed?)" > "$H/target/vdirect.status"
+fi
 cd "$REPO"
 cargo build --release --offline --features verif_hooks --target-dir "$H/target/cli" --config 'profile.release.overflow-checks=true' --config 'profile.release.package.emulator_8086.debug-assertions=true' 2>&1
